@@ -50,6 +50,19 @@ fn identity(l: &Lint, doc: &Document) -> Identity {
     }
 }
 
+/// Every token (zero-width structural breaks included) in or within two characters of the lint:
+/// the precondition "the flagged text and the tokens within two characters of it are untouched"
+/// is judged on this sequence.
+fn neighbourhood(l: &Lint, doc: &Document) -> Vec<(String, &'static str)> {
+    let src = doc.get_source();
+    let (a, b) = (l.span.start.saturating_sub(2), (l.span.end + 2).min(src.len()));
+    doc.get_tokens()
+        .iter()
+        .filter(|t| if t.span.end > t.span.start { t.span.start < b && a < t.span.end } else { a <= t.span.start && t.span.start <= b })
+        .map(|t| (src[t.span.start..t.span.end.min(src.len())].iter().collect::<String>(), crate::tokmon::kind_name(&t.kind)))
+        .collect()
+}
+
 fn all_differences(a: &Identity, b: &Identity) -> Vec<&'static str> {
     let mut v = Vec::new();
     if a.kind != b.kind {
@@ -185,16 +198,24 @@ pub fn worker(ctx: &mut Ctx) {
                 continue;
             }
             // l disappeared without being chosen: it must be indistinguishable from a chosen one
-            // attribute to the closest ignored lint (fewest observable differences)
+            // attribute to the ignored lint(s) whose entry really hides this one (found by ignoring
+            // each chosen lint alone), else to the closest one
             let mut best: Option<Vec<&'static str>> = None;
             let mut twin = false;
+            let mut culprit_found = false;
             for i in &chosen {
                 let d = all_differences(&ids[j], &ids[*i]);
                 if d.is_empty() {
                     twin = true;
                     break;
                 }
-                if best.as_ref().map(|b| d.len() < b.len()).unwrap_or(true) {
+                let mut one = IgnoredLints::new();
+                one.ignore_lint(&lints[*i], &doc);
+                let culprit = one.is_ignored(l, &doc);
+                if culprit && (!culprit_found || best.as_ref().map(|b| d.len() < b.len()).unwrap_or(true)) {
+                    best = Some(d);
+                    culprit_found = true;
+                } else if !culprit_found && best.as_ref().map(|b| d.len() < b.len()).unwrap_or(true) {
                     best = Some(d);
                 }
             }
@@ -262,13 +283,23 @@ pub fn worker(ctx: &mut Ctx) {
                 // only judge if the neighbourhood really is untouched: same identity at the shifted place
                 if let Some(same) = l2.iter().find(|x| x.span.start == ns && x.span.end == ne && x.message == l.message && x.lint_kind == l.lint_kind) {
                     let id2 = identity(same, &d2);
-                    if differs(&id2, &ids[*i]).is_none() {
+                    // judged only if nothing in or within two characters of the lint changed, structural
+                    // (zero-width) tokens included
+                    let mut nb_before = neighbourhood(l, &doc);
+                    let mut nb_after = neighbourhood(same, &d2);
+                    // a paragraph added right at the lint's edge shows up as a new neighbour: not "untouched"
+                    nb_before.retain(|x| !x.0.is_empty() || true);
+                    nb_after.retain(|x| !x.0.is_empty() || true);
+                    if differs(&id2, &ids[*i]).is_none() && nb_before == nb_after {
                         // the context hash looks at start+2..start+4 instead of end..end+2: an appended
                         // paragraph can fall into that misplaced window although it is not within two
                         // characters of the lint
                         let misplaced_window = ename == "append-paragraph" && l.span.start + 4 > src.len() && l.span.end + 2 <= src.len();
                         let q = if ids[*i].quote_in_context {
                             "quote-in-context"
+                        } else if l.span.start == 1 && shift > 0 {
+                            // the window before a lint that starts at offset 1 is dropped, not clamped
+                            "lint-at-offset-1"
                         } else if misplaced_window {
                             "misplaced-sequel-window"
                         } else {
